@@ -49,6 +49,28 @@ def separated(ta, tb):
     return ta[1] + 1 <= tb[0] or tb[1] + 1 <= ta[0]
 
 
+def retypes_outside(step, D, after):
+    """Does the step change the type of a node that holds *untouched* content adjacent to its
+    range?  (a split that re-opens the tail as another type, a deletion that joins the tail of one
+    textblock into a textblock of another type, a fitted insertion that does either).  Such a step
+    changes what the untouched content may contain although its range does not cover it."""
+    ps = gen.step_positions(step)
+    if not ps:
+        return False
+    smap = step.get_map()
+    try:
+        for (p, assoc) in ((ps[0], -1), (ps[-1], 1)):
+            a = D.resolve(p)
+            b = after.resolve(smap.map(p, assoc))
+            ca = [a.node(d).type.name for d in range(a.depth + 1)]
+            cb = [b.node(d).type.name for d in range(b.depth + 1)]
+            if ca != cb:
+                return True
+    except ValueError:
+        return False
+    return False
+
+
 class MiscMonitors:
     # ================================================================== C10
     def c10_init(self):
@@ -265,10 +287,14 @@ class MiscMonitors:
         finally:
             sim.in_oracle -= 1
         if r1.failed or r2.failed or r1.doc is None or r2.doc is None:
+            if retypes_outside(a, D, ra.doc) or retypes_outside(b, D, rb.doc):
+                det["shape"] = "retypes-outside-range"
             self.violation("C17", "rebase.apply_failed", dict(det, a_then_b=r1.failed, b_then_a=r2.failed,
                                                               a2=self.describe_step(a2), b2=self.describe_step(b2)))
             return
         if not self.doc_equal(r1.doc, r2.doc) or not r1.doc.eq(r2.doc):
+            if retypes_outside(a, D, ra.doc) or retypes_outside(b, D, rb.doc):
+                det["shape"] = "retypes-outside-range"
             self.violation("C17", "rebase.orders_differ", dict(det, a_then_b=r1.doc.to_json(),
                                                                b_then_a=r2.doc.to_json()))
 
@@ -290,6 +316,32 @@ class MiscMonitors:
             return "not-native"
         self.c17_pair(A.unconfirmed[0].step, B.unconfirmed[0].step, Da, "probe")
         return "judged"
+
+    def c17_round(self, ev):
+        """synchronous round: several editors issue one command each against the same document
+        (the authority's current one); every pair of first steps is a concurrency point"""
+        sim = self.sim
+        if "C17" not in self.on or not self.is_core():
+            return "off"
+        D = sim.lookup_target(tuple(ev.get("base", ["auth", 0])))
+        if D is None:
+            return "nobase"
+        firsts = []
+        for op in ev["ops"]:
+            tr = pt.Transform(D)
+            try:
+                with core.call_budget(300000):
+                    gen.apply_op(tr, op)
+            except (gen.Refused, core.BudgetExceeded, Exception):  # noqa: BLE001
+                continue
+            if tr.steps:
+                firsts.append(tr.steps[0])
+        n = 0
+        for i in range(len(firsts)):
+            for j in range(i + 1, len(firsts)):
+                self.c17_pair(firsts[i], firsts[j], D, "round")
+                n += 1
+        return "pairs:%d" % n
 
     # ================================================================== C20
     def on_pair(self, a, b, site):
